@@ -266,6 +266,27 @@ def auto_discharge(facts, s):
         if srcs and all(re.search(r"NonZero.*::new$|num::nonzero::NonZero.*::new$", norm(r.site.name)) for r in srcs) and \
                 all(all(a.get("k") is not None for a in r.site.args) for r in srcs):
             return ("constant-input", "unwrap of NonZero::new(<literal>)")
+    if s.kind in ("option-unwrap",):
+        # `map.get(_mut)(&k).expect(..)` where every path to the lookup passes an `insert(k, ..)` into the same map or the true edge
+        # of `contains_key(&k)` on it, and nothing that removes entries from that map can come in between
+        def msig(o):
+            return frozenset((r.kind, r.desc) for r in f.roots(o, through_calls=False, max_nodes=100) if r.kind in ("arg", "upvar"))
+        gets = [r.site for r in f.roots(c.args[0], through_calls=False, max_nodes=100) if r.kind == "call" and r.site.matches(r"HashMap.*::get(_mut)?$|BTreeMap.*::get(_mut)?$")]
+        if len(gets) == 1 and len(gets[0].args) == 2:
+            g = gets[0]
+            m, k = msig(g.args[0]), msig(g.args[1])
+            same = lambda x, i, want: len(x.args) > i and msig(x.args[i]) == want
+            if m and k:
+                ins = [x for x in f.calls() if x.matches(r"(HashMap|BTreeMap).*::insert$") and same(x, 0, m) and same(x, 1, k)]
+                kills = [x for x in f.calls() if x.matches(r"(HashMap|BTreeMap).*::(remove|remove_entry|clear|retain|drain|extract_if)$|mem::(take|replace|swap)$") and same(x, 0, m)]
+                has = lambda lab: lab.kind == "bool" and lab.value is True and lab.cond.kind == "call" and lab.cond.site.matches(r"(HashMap|BTreeMap).*::contains_key$") and \
+                    same(lab.cond.site, 0, m) and same(lab.cond.site, 1, k)
+                good = {b2 for (a, b2) in f.edges_where(has)} | {x.bb for x in ins}
+                if good:
+                    ok, _w = f.must_pass(0, [g.bb], good)
+                    between = [x for x in kills if any(f.path(gb, [x.bb]) is not None for gb in good) and f.path(x.bb, [g.bb]) is not None]
+                    if ok and not between:
+                        return ("key-ensured", "lookup of a key that every path has just inserted into the same map or found present (contains_key), with no removal in between")
     if s.kind == "vec-index" and norm(c.name).endswith("::remove") and len(c.args) == 2 and c.args[1].get("k") is not None and str(c.args[1]["k"].get("v", "")).startswith("0"):
         # `v.remove(0)` on the edge where the same vector was just found non-empty (`while !v.is_empty()`, `if v.len() > 0`)
         def rsig(o):
